@@ -146,10 +146,7 @@ let () =
     let fin tag s =
       ps tag; pn s.pos;
       let evs = Stdlib.List.filter_map (ser_event is_user) (Stdlib.List.rev s.trace) in
-      ps ("[" ^ Stdlib.String.concat " " evs ^ "]");
-      (match s.stack with
-       | top :: _ -> ps (ser_val top.i_sym)
-       | [] -> ps "-") in
+      ps ("[" ^ Stdlib.String.concat " " evs ^ "]") in
     match parse tb eb rc discard_fn fuel w with
     | Accept s -> fin "ACC" s
     | Reject s -> fin "REJ" s
